@@ -9,15 +9,17 @@
 (*    for MemHost = "LE", Branch = "BE" through the crossed build (C14).   *)
 (***************************************************************************)
 EXTENDS GenericImpl, Json, TLC
-CONSTANTS Qs, Offs, Ws, MemHost, Branch
+CONSTANTS Qs, Offs, Ws, MemHost, Branch,
+          BigQs        \* start quadlets far into a large PDU (the descriptor's quadlet index is an octet: 0..255), swept with a reduced shape set
 VARIABLES d, img, st
 Img(k, n) == Mat([i \in 1..n |-> IF k = 0 THEN 0 ELSE IF k = 1 THEN 255 ELSE (i * 53 + 17 * k) % 256])
 AllFF == Fill(8, 255)
 AltA  == Fill(8, 170)
 Vals  == { AllFF, AltA, <<1, 35, 69, 103, 137, 171, 205, 239>> }
-ArenaLen == 2 + 16 + 3            \* 2 leading bytes, 4 quadlets, 3 trailing bytes
+ArenaLen(q) == 2 + 4 * (IF q < 2 THEN 4 ELSE q + 3) + 3       \* 2 leading bytes, the quadlets the shape can reach, 3 trailing bytes
 Init == /\ d \in { D(q, off, w) : q \in Qs, off \in Offs, w \in Ws }
-        /\ img \in { Img(k, ArenaLen) : k \in 0..3 }
+                \cup { D(q, off, w) : q \in BigQs, off \in {0, 5, 31}, w \in {1, 31, 32, 33, 64} }
+        /\ img \in { Img(k, ArenaLen(d.q)) : k \in (IF d.q < 2 THEN 0..3 ELSE {2, 3}) }
         /\ st = [op |-> "start"]
 Next == /\ st.op = "start" /\ UNCHANGED <<d, img>>
         /\ \/ st' = [op |-> "get", q |-> d.q, off |-> d.off, w |-> d.w, val |-> Zero64, base |-> 2, pre |-> img, post |-> img,
